@@ -63,7 +63,9 @@ EXTRA_SHIMS = ['cvxpy recorder stub (robust target only; see C03)']
 def cases(tier, seed):
     lst = THOROUGH if tier == 'thorough' else QUICK
     out = [(cid, dict(kind='slp', shape=SHAPE_OF[cid], kw=dict(kw), boundary=b, S=S)) for cid, kw, b, S in lst]
-    for cid, shape, kw, S in (('robust_contract_storage', 'contract_storage', dict(T=2), 2), ('robust_two_node', 'two_node', dict(T=2), 1)):
+    for cid, shape, kw, S in (('robust_contract_storage', 'contract_storage', dict(T=2), 2), ('robust_two_node', 'two_node', dict(T=2), 1),
+                              ('robust_mip_orderbook_full_exec', 'orderbook', dict(T=2, full_exec=True, orders=((0, 2, 2.0), (1, 2, -1.5))), 1),
+                              ('robust_mip_storage_no_simult', 'contract_storage', dict(T=2, storage_kw=dict(no_simult_in_out=True)), 1)):
         out.append((cid, dict(kind='robust', shape=shape, kw=kw, S=S)))
     # the cost samples that feed the robust target and make_slp (Portfolio.create_cost_samples, the assets' costs_only branches) are the
     # cost vectors of the scenario problems -- for every asset class, also on grids whose step differs from the main time unit
